@@ -4,7 +4,7 @@ from common import Rng
 PT = "/verif/.build/pt"
 
 THEOREMS = [
-    "check_run_ok", "encode_lengths_consistent", "encode_frame_bound", "fitLoop_is_fitN", "chunks_partition_entries",
+    "check_run_ok", "negotiate_agrees", "codecs_mirror", "encode_lengths_consistent", "encode_frame_bound", "fitLoop_is_fitN", "chunks_partition_entries",
     "encodeLoop_is_chunks", "roundtrip_update", "roundtrip_open", "roundtrip_small", "roundtrip_keepalive",
     "roundtrip_refresh", "roundtrip_notification", "as4_roundtrip", "decode_encode_fixed_point",
     "decode_encode_fixed_point_frame", "encode_frame_bound_full_false", "chunks_partition_full_false",
@@ -18,15 +18,15 @@ THEOREM_BACKED = ["OPEN + all capability kinds (block <= 253 bytes)", "NOTIFICAT
                   "UPDATE Reach IPv4/IPv6 unicast+multicast on 4-octet-AS sessions: legacy (NEXT_HOP) and MP_REACH_NLRI "
                   "(IPv6 / link-local / RFC 8950 next hop), all attribute kinds of Attribute::decode, add-path on/off",
                   "AS_PATH 2-byte downgrade + AS4_PATH + reconciliation (as4_roundtrip, function level)",
+                  "PeerCodec::negotiate vs the RFC reading of simple capability sets (negotiate_agrees; also re-checked by the "
+                  "oracle on every generated case), mirror property of the two codecs",
                   "chunk loop: partition of the entry list, frame bound under the size side condition"]
 HYPOTHESIS_BACKED = ["NLRI encoders/decoders of VPNv4/v6, labeled-unicast v4/v6, EVPN, flowspec v4/v6(+VPN), BGP-LS, MUP v4/v6, "
                      "SR-policy v4/v6, RTC: wire bytes and per-entry decode verdict are measured on the real code (probe) and "
                      "passed in the case; framing/chunking around them is the modelled code; judged by the structural oracle "
                      "(frame bound, length consistency, byte-level partition, decode-back equality by the REAL decoder)",
                      "UPDATE Reach towards a 2-byte-AS peer (AS_PATH/AGGREGATOR downgrade inside a whole message): modelled and "
-                     "compared on every case, not covered by the master theorem (only by as4_roundtrip)",
-                     "agreement of the model's negotiate with the RFC reading of the capability sets (negAgree): decidable "
-                     "hypothesis of the master theorem, checked on every generated case by the oracle"]
+                     "compared on every case, not covered by the master theorem (only by as4_roundtrip)"]
 
 CONFIG = dict(
     level_text="Kernel-checked Lean theorems about a hand-written model of the BGP encoder (PeerCodec::negotiate, encode_to / "
@@ -217,13 +217,17 @@ def cap_pair(r, fam, force=None):
 # ------------------------------------------------------------------------------------------------ attributes
 def gen_aspath(r, two):
     segs = []
-    style = r.weighted([("short", 10), ("empty", 2), ("long", 3), ("huge", 1), ("confed", 2), ("wide", 6), ("set", 2)])
+    style = r.weighted([("short", 10), ("empty", 2), ("long", 3), ("huge", 1), ("confed", 2), ("wide", 6), ("set", 2),
+                        ("emptyseg", 1)])
     def asn(wide):
         if wide:
             return r.pick([65536, 70000, 4200000001, 4294967295, 131072])
         return r.pick([1, 64512, 65001, 65002, 65535, 23456])
     if style == "empty":
         return "(asp)"
+    if style == "emptyseg":
+        segs.append("(%d)" % r.pick([1, 2]))
+        segs.append("(2 %s)" % " ".join(str(asn(r.chance(1, 3))) for _ in range(1 + r.below(3))))
     if style == "short":
         segs.append("(2 %s)" % " ".join(str(asn(False)) for _ in range(1 + r.below(4))))
     elif style == "wide":
